@@ -34,6 +34,8 @@ ops (one line, words separated by blanks; bytes as hex, "-" = empty):
   encz HDR REQ                                → the same built with the toy compressor configured (FrameWrite.encodeReqC (some toyEnc))
   decz <framehex> HDR REQ                     → spec-backed: the compression-aware specification decoder (FrameSpec.decodeReqC toyDec)
                                                  on the real bytes against what was asked for, answers as for `dec`
+  bout <refused|framehex> HDR REQ              → spec-backed, builder tier: what the real builder did with REQ (error or panic before any
+                                                 byte = refused; the frame it produced) judged by FrameWrite.judge, answers as for `sout`
   sout <refused|framehex> <n> <stmthex>* HDR REQ → spec-backed, session tier: what happened to REQ (a BATCH stated through the
                                                  Session API) on a real connection — refused with nothing on the wire, or the
                                                  frame the peer received — judged by the specification (FrameWrite.judge):
@@ -470,6 +472,15 @@ def step (_ : Unit) (ws : List String) : Unit × String :=
         else if canonReq d.req ≠ canonReq want then "mismatch:request"
         else "ok"
     | _, _ => "bad-op"
+  | "bout" :: o :: r =>
+    match pHdrReq r with
+    | some ((h, g), []) =>
+      let outcome : Option Outcome :=
+        if o == "refused" then some Outcome.refused else (parseHex o).map Outcome.sent
+      match outcome with
+      | none => "bad-op"
+      | some oc => verdictName (judge (fun a b => canonReq a == canonReq b) h.v h.tracing (ask now0 g) oc)
+    | _ => "bad-op"
   | "sout" :: o :: r =>
     -- statement texts are for the replay on the real code only
     match pCounted pHex r with
